@@ -203,6 +203,16 @@ OR = "netconf::session::OutstandingRequest"
 RECV_CO = SESSION + "::recv::{closure#0}::{closure#0}"
 
 
+def take_fn(fx):
+    """The method by which the owner takes its reply out of its slot (`take` today), found by signature: the method of OutstandingRequest with
+    `&mut self` alone that returns Result<Option<PartialReply>, _>."""
+    out = sorted(it["qdef"] for it in fx.item_list if it.get("kind") == "AssocFn" and it.get("qdef", "").startswith(OR + "::")
+                 and it.get("inputs") == ["&mut " + OR] and "Option<" in (it.get("output") or "") and "PartialReply" in (it.get("output") or ""))
+    if len(out) != 1:
+        raise F.AnchorLost("the method of OutstandingRequest that hands the parked reply to its owner (&mut self -> Result<Option<PartialReply>, _>): %s" % out)
+    return out[0]
+
+
 def _slot(v):
     return ("adt", OR, v, (("0", ("sym", "STORED")),) if v == "Ready" else ())
 
@@ -312,7 +322,7 @@ def r2_own_slot(chk, fx):
 def r3_state_machine(chk, fx):
     """OutstandingRequest::take as a function of the slot state (abstract interpretation with the store through &mut self modelled)."""
     from vlib import absint as A
-    tk = OR + "::take"
+    tk = take_fn(fx)
     if tk not in fx.thir:
         raise F.AnchorLost(tk)
     chk.analysed(tk)
@@ -525,7 +535,7 @@ def r7_table_integrity(chk, fx):
     # (c) a slot changes state only where the protocol says so: Pending when the request is sent (rpc), Ready when its reply is parked
     # (recv), Complete when its owner takes it (take) — and in private helpers only those three call.  Any other writer (a sweep over the
     # table on close, a timeout reaper) takes replies away from requests that are still waiting for them.
-    roots = (c18.SESSION + "::rpc", c18.SESSION + "::recv", "netconf::session::OutstandingRequest::take")
+    roots = (c18.SESSION + "::rpc", c18.SESSION + "::recv", take_fn(fx))
     callers = {}
     for name, b in fx.mir.items():
         if b.crate != "netconf":
